@@ -190,7 +190,8 @@ def check(case, ctx):
     variables = sorted(g0.variables())
     base_triples = list(g0.triples)
     wants = {v: RI.content(base_triples, v, rm) for v in variables}
-    inits = [('decoded', g0), ('markerless', Graph(base_triples, top=g0.top)), ('decoded+deepcopy', copy.deepcopy(g0))]
+    inits = [('decoded', g0), ('markerless', Graph(base_triples, top=g0.top)), ('decoded+deepcopy', copy.deepcopy(g0)),
+             ('hand-built, implicit top', Graph(base_triples))]      # no top given: it is the source of the first triple
     # a client may have used the sort keys of other models on the same roles before (shared caches must not matter)
     for other in ('DEFAULT', 'AMR', 'MINI'):
         if other != name:
@@ -206,7 +207,7 @@ def check(case, ctx):
     for label, g in inits:
         seen.add(_snapshot(g))
         frontier.append(([label], g))
-    shallow = {'markerless', 'decoded+deepcopy'}      # these initial variants are explored one level less deep
+    shallow = {'markerless', 'decoded+deepcopy', 'hand-built, implicit top'}      # these initial variants are explored one level less deep
     depth = 0
     real_random = pmodel.random
     try:
